@@ -27,12 +27,16 @@ pub struct Bind {
     pub how: String,     // let-init-prefix | let-init-suffix | let-init-contains
     pub pat: String,     // text with whitespace removed
     pub nth: usize,      // 1-based
+    /// `bind?`: may be missing when the function lends a plain local instead (X9); see weave_body
+    pub optional: bool,
 }
 
 #[derive(Debug, Clone)]
 pub struct ExitAssert {
     pub var: String,
     pub clause: Clause,
+    /// the clause mentions `$retval`: evaluated after the exit's value has been computed (X7 wrap)
+    pub on_ret: bool,
 }
 
 #[derive(Debug, Clone)]
@@ -55,6 +59,8 @@ pub struct FnContract {
     pub binds: Vec<Bind>,
     pub exit_asserts: Vec<ExitAssert>,
     pub hints: Vec<Hint>,
+    /// proof text executed at every exit of the function
+    pub exit_ghost: Vec<String>,
     pub attrs: Vec<String>, // extra verifier attributes, e.g. exec_allows_no_decreases_clause
     pub shape: Option<String>, // `shape transmute` : do not weave, only check body shape (X5)
     pub line: usize,
@@ -81,8 +87,8 @@ pub struct Unit {
 }
 
 const FN_KEYS: &[&str] = &[
-    "emit-as", "fx", "ret", "requires", "ensures", "decreases", "loop", "bind", "exit-assert",
-    "hint", "attr", "shape",
+    "emit-as", "fx", "ret", "requires", "ensures", "decreases", "loop", "bind", "bind?", "exit-assert",
+    "hint", "attr", "shape", "exit-assert-ret", "exit-ghost",
 ];
 const TOP_KEYS: &[&str] = &["unit", "fxcalls", "guardfn", "tryguardfn", "copy", "fn", "prelude", "typerewrite"];
 
@@ -212,7 +218,7 @@ pub fn parse(text: &str, path: &str) -> Unit {
                             panic!("{}:{}: unknown loop clause `{}`", path, ln, kw);
                         }
                     }
-                    "bind" => {
+                    "bind" | "bind?" => {
                         // bind $x = let-init-prefix TEXT [#n]
                         let ws: Vec<&str> = rest.split_whitespace().collect();
                         if ws.len() < 4 || ws[1] != "=" {
@@ -228,13 +234,17 @@ pub fn parse(text: &str, path: &str) -> Unit {
                                 }
                             }
                         }
-                        c.binds.push(Bind { var: ws[0].into(), how: ws[2].into(), pat: pat_words.join(""), nth });
+                        c.binds.push(Bind { var: ws[0].into(), how: ws[2].into(), pat: pat_words.join(""), nth, optional: w == "bind?" });
                     }
-                    "exit-assert" => {
+                    "exit-assert" | "exit-assert-ret" => {
                         let (var, tail) = rest.split_once(char::is_whitespace).unwrap_or_else(|| panic!("{}:{}: exit-assert $x [..] expr", path, ln));
                         let (mut cl, first) = parse_tag(tail, ln);
                         cl.text = take_text(&lines, &mut i, first);
-                        c.exit_asserts.push(ExitAssert { var: var.to_string(), clause: cl });
+                        c.exit_asserts.push(ExitAssert { var: var.to_string(), clause: cl, on_ret: w == "exit-assert-ret" });
+                    }
+                    "exit-ghost" => {
+                        let txt = take_text(&lines, &mut i, rest.trim_start_matches(':').trim().to_string());
+                        c.exit_ghost.push(txt);
                     }
                     "hint" => {
                         let (anchor, first) = rest.split_once(':').unwrap_or_else(|| panic!("{}:{}: hint <anchor> : text", path, ln));
